@@ -82,7 +82,7 @@ def project(full, opts):
 
 
 def _options(schema_kind, sbits, off_mask) -> bool:
-    schema = build_family(sbits) if schema_kind == 0 else programmatic(ADVERSARIAL[sbits[0] + 2 * sbits[1] + 4 * sbits[2]], "why" if sbits[3] else None, sbits[4] + 2 * sbits[5])
+    schema = build_family(sbits) if schema_kind == 0 else programmatic(ADVERSARIAL[sbits[0] + 2 * sbits[1] + 4 * sbits[2]], [None, "why", "", "two\nlines"][sbits[3] + 2 * sbits[6]], sbits[4] + 2 * sbits[5])
     opts = {k: not ((off_mask >> i) & 1) for i, k in enumerate(OPTS)}
     full = introspect(schema, FULL)
     got = introspect(schema, opts)
@@ -103,7 +103,7 @@ def option_combinations(s0: bool, s1: bool, s2: bool, s3: bool, s4: bool, s5: bo
 
 
 def _rebuild(schema_kind, sbits) -> bool:
-    schema = build_family(sbits) if schema_kind == 0 else programmatic(ADVERSARIAL[sbits[0] + 2 * sbits[1] + 4 * sbits[2]], "why" if sbits[3] else None, sbits[4] + 2 * sbits[5])
+    schema = build_family(sbits) if schema_kind == 0 else programmatic(ADVERSARIAL[sbits[0] + 2 * sbits[1] + 4 * sbits[2]], [None, "why", "", "two\nlines"][sbits[3] + 2 * sbits[6]], sbits[4] + 2 * sbits[5])
     intro = introspection_from_schema(schema, descriptions=True, specified_by_url=True, directive_is_repeatable=True,
                                       schema_description=True, input_value_deprecation=True, one_of=True)
     client = build_client_schema(intro)
@@ -177,3 +177,8 @@ def corpus():
             for m in (0, 127, 16, 32, 1, 85):
                 yield "option_combinations", dict(kind=kind, lo=m % 8), dict(sb, hi=m // 8)
             yield "client_rebuild", dict(kind=kind), dict(sb)
+        # an element deprecated with an EMPTY reason is still deprecated
+        empty_reason = dict(all_off, s6=True)
+        for m in (0, 127, 16, 32, 1, 85, 2, 4, 8, 64):
+            yield "option_combinations", dict(kind=kind, lo=m % 8), dict(empty_reason, hi=m // 8)
+        yield "client_rebuild", dict(kind=kind), dict(empty_reason)
